@@ -916,6 +916,29 @@ func TestC15(t *testing.T) {
 			"batchFailing3": batch("failing"),
 			"batchFree":     batch("free"),
 			"batchFree2":    batch("free"),
+			"batchBig": func(t *rapid.T) {
+				// one batch over more than 128 distinct keys (a second one in the same
+				// case adds to keys that already exist, in the middle of the key order)
+				n := rapid.IntRange(130, 190).Draw(t, "nbig")
+				ops := make([]c15BOp, 0, n+4)
+				for i := 0; i < n; i++ {
+					ops = append(ops, c15BOp{K: fmt.Sprintf("bk%03d", i), V: valGen.Draw(t, "bv")})
+				}
+				for _, k := range s.presentKeys() {
+					if len(ops) < n+4 && !strings.HasPrefix(k, "bk") {
+						ops = append(ops, c15BOp{K: k, V: valGen.Draw(t, "bv2")})
+					}
+				}
+				step(c15Op{Kind: "batch", Batch: ops})
+			},
+			"batchBig2": func(t *rapid.T) {
+				n := rapid.IntRange(130, 160).Draw(t, "nbig")
+				ops := make([]c15BOp, 0, n)
+				for i := 0; i < n; i++ {
+					ops = append(ops, c15BOp{K: fmt.Sprintf("bk%03d", (i*7)%200), V: valGen.Draw(t, "bv")})
+				}
+				step(c15Op{Kind: "batch", Batch: ops})
+			},
 			"reopen": func(t *rapid.T) {
 				step(c15Op{Kind: "reopen", Mode: rapid.SampledFrom([]string{"updater", "rdb"}).Draw(t, "mode")})
 			},
